@@ -418,7 +418,13 @@ class ElementList(MutableSequence):
             list_index = self.list.index(old_child)
             by_name_index = self.indexes[old_child.name].index(old_child)
             self.remove(old_child)
-            self.insert(list_index, new_child, by_name_index)
+            try:
+                self.insert(list_index, new_child, by_name_index)
+            except Exception:
+                # the new child has been refused: put the old one back where it was
+                self.indexes.setdefault(old_child.name, []).insert(by_name_index, old_child)
+                self.list.insert(list_index, old_child)
+                raise
 
     def create_element(self, name, traversal_parent=False, reference=None):
         """
